@@ -294,7 +294,10 @@ def run_case(spec, store=None):
 # ----------------------------------------------------------------- generators
 
 def trees(depth, keys=KEYS):
-    leaf = st.integers(0, 99)
+    # leaves include falsy values: 0, '', False, None must be stored, found
+    # and enumerated like any other value
+    leaf = st.one_of(st.integers(0, 99),
+                     st.sampled_from([0, '', False, None, 'v']))
     if depth == 0:
         return leaf
     sub = trees(depth - 1, keys)
